@@ -1,3 +1,4 @@
 pub mod value;
 pub mod mutate;
 pub mod readers;
+pub mod filter;
